@@ -61,13 +61,7 @@ func init() {
 		"(*strings.Builder).Len":         func(m *Machine, fr *frame, fn *ssa.Function, a []Value) Value { return Int{V: uint64(len(sbBuf(a[0])))} },
 		"(*strings.Builder).Reset":       func(m *Machine, fr *frame, fn *ssa.Function, a []Value) Value { (*a[0].(*Value)).(Struct)[1] = []Value(nil); return nil },
 		"regexp.Compile":                 inReCompile,
-		"regexp.QuoteMeta": func(m *Machine, fr *frame, fn *ssa.Function, a []Value) Value {
-			s := a[0].(Str)
-			if !s.isConc() {
-				unsupported("QuoteMeta on symbolic string")
-			}
-			return Str{S: regexp.QuoteMeta(s.S)}
-		},
+		"regexp.QuoteMeta":               inQuoteMeta,
 		"(*regexp.Regexp).FindStringIndex":         inReFind,
 		"(*regexp.Regexp).FindStringSubmatchIndex": inReFind,
 		"(*regexp.Regexp).MatchString":             inReMatch,
@@ -716,4 +710,30 @@ func (m *Machine) depGlobal(g *ssa.Global) *Value {
 		return v
 	}
 	return nil
+}
+
+// regexp.QuoteMeta: concrete -> real; symbolic bytes fork on membership in the special set.
+func inQuoteMeta(m *Machine, fr *frame, fn *ssa.Function, a []Value) Value {
+	s := a[0].(Str)
+	if s.isConc() {
+		return Str{S: regexp.QuoteMeta(s.S)}
+	}
+	const special = "\\.+*?()|[]{}^$"
+	var r Str
+	for i := range s.S {
+		b := s.at(i)
+		if b.T == nil {
+			r = concat(r, Str{S: regexp.QuoteMeta(string([]byte{byte(b.V)}))})
+			continue
+		}
+		var alts []*Term
+		for k := 0; k < len(special); k++ {
+			alts = append(alts, tEq(b.T, bvConst(uint64(special[k]), 8)))
+		}
+		if m.branchIn(fr, mkBool(tOr(alts...))) {
+			r = concat(r, Str{S: "\\"})
+		}
+		r = concat(r, s.slice(i, i+1))
+	}
+	return r
 }
